@@ -244,9 +244,14 @@ def run(ctx):
             if i % 4 == 0:
                 deferred_consumption(res, rng)
         # large dumps: many records in many chunks, hundreds of thread-map entries and log records
-        for m in ctx.pick((5000,), (70000, 3000, 140000)):
+        # (and the number of sections is a size of its own: a capture of a busy machine is written out in thousands of
+        # small events sections)
+        for m, k in ctx.pick(((5000, None), (4000, 1100), (5000, 2600)),
+                             ((70000, None), (3000, None), (140000, None), (70000, 35000), (140000, 66000))):
             recs = gen.gen_records(rng, m, first_nonzero=False)
-            f = gen.gen_v3(rng, n=300, chunks=gen.split_chunks(rng, recs, rng.choice((1, 7, 40))))
+            f = gen.gen_v3(rng, n=300, chunks=gen.split_chunks(rng, recs, k or rng.choice((1, 7, 40))))
+            if k:
+                res.count('dumps_with_thousands_of_sections')
             f['records'] = recs
             check_file(res, f, where='(large dump)')
             res.case(f['data'])
